@@ -49,6 +49,11 @@ TRUSTED = [
 ]
 ORACLE_LIMIT = {"quick": 100000, "thorough": 1000000}
 EXPLORED_ONLY = [
+    "live-object states the property text does not speak about, modelled faithfully (Model/CdsObj.v) and compared, not "
+    "judged by the oracle: the placeholder views (Unix seconds 0, no datetime) of an object made with "
+    "init_dt_unix_stamp=False before its first read_from_raw / addition; the fields an in-place __add__ has already "
+    "updated when it raises OverflowError (e.g. day 65536, which pack() then refuses with struct.error) with the views "
+    "left stale; negative timedeltas",
     "CPython's datetime.fromtimestamp / timedelta(seconds=float) / float division themselves: transcribed into "
     "Model/CdsFloat.v and Model/CdsSoftFloat.v and validated by bit-exact correspondence on every run; the theorems "
     "C14_unix_seconds_close / C14_datetime_exact are about that transcription",
@@ -148,20 +153,24 @@ def impl(op, a):
     if op == 418:
         t = _make(a[0])
         out = views_any(t)
+        kept = bytearray()            # the caller's receive buffer, re-used (edited in place) across reads
         for o in a[1:]:
             k = o[0]
             r = [0]
             try:
                 if k == 1:
                     t.read_from_raw(bytes(o[1:]))
-                elif k == 2:
-                    buf = bytearray(o[1:])
+                elif k in (2, 6):
+                    if k == 2:
+                        kept = bytearray(o[1:])
+                    elif list(kept) != o[1:]:
+                        raise RuntimeError("history op 6 does not carry the buffer's present content")
                     try:
-                        t.read_from_raw(buf)
+                        t.read_from_raw(kept)
                     finally:      # the caller re-uses its receive buffer: the stamp must not follow
-                        for i in range(len(buf)):
-                            buf[i] ^= 0xFF
-                        buf.extend(b"\x5a")
+                        for i in range(len(kept)):
+                            kept[i] ^= 0xFF
+                        kept.extend(b"\x5a")
                 elif k == 3:
                     t = t + D.timedelta(days=o[1], seconds=o[2], microseconds=o[3])
                 elif k == 4:
@@ -443,6 +452,15 @@ def streams(tier, rng):
                     ms -= MSPD; dd += 1
                 cur = [dd + td[0], ms]
         cases.append((418, [make] + ops))
+    for _ in range(2000 if big else 300):     # the caller's bytearray handed over, edited in place, handed over again
+        make = rng.choice(_receivers(rng))
+        t1, t2 = rand_ts(rng), rand_ts(rng)
+        b1 = layout(*t1) + [rng.randrange(256)] * rng.choice([0, 3, 600])
+        inv = [x ^ 0xFF for x in layout(*t2)] + [rng.randrange(256)] * rng.choice([0, 3, 600])   # becomes t2 once edited
+        for b in (b1, inv):
+            nb = [x ^ 0xFF for x in b] + [0x5A]
+            nnb = [x ^ 0xFF for x in nb] + [0x5A]
+            cases.append((418, [make, [2] + b, [6] + nb, [5], [6] + nnb, [4]]))
     yield "live_object_histories", "exact", cases
     # 5d. buffer sizes: every input length 0..1100 (thorough 0..4200) through the decode entry points
     cases = []
@@ -692,7 +710,7 @@ def _oracle_live(a, ires):
         r, obs = ires[4 + 4 * i], ires[5 + 4 * i:8 + 4 * i]
         k = o[0]
         rerr = r[0] == 1
-        if k in (1, 2, 4):
+        if k in (1, 2, 4, 6):
             packable = 0 <= cur[0] <= 65535 and 0 <= cur[1] < 2 ** 32
             b = o[1:] if k != 4 else (layout(*cur) if packable else None)
             name = "read_from_raw" if k != 4 else "read_from_raw(self.pack())"
